@@ -23,8 +23,11 @@ TARGET = os.path.join(CACHE, "target")
 HARNESS_BIN = os.path.join(TARGET, "debug", "vharness")
 REPO = "/repo"
 GUARD = "selene_verif"
+# RUST_MIN_STACK: worker threads of the debug-built binary / harness get a large stack, so that the
+# third-party parser's deep debug frames (known finding D3, probed on purpose by C11) cannot abort
+# unrelated checks
 ENV = dict(os.environ, CARGO_NET_OFFLINE="true", CARGO_TARGET_DIR=TARGET,
-           RUSTFLAGS="--cfg " + GUARD)
+           RUSTFLAGS="--cfg " + GUARD, RUST_MIN_STACK=str(256 * 1024 * 1024))
 
 FORBIDDEN = re.compile(
     r"\b(Admitted|admit|Axiom|Axioms|Parameter|Parameters|Conjecture|Conjectures|Hypothesis|"
